@@ -43,6 +43,9 @@ pub enum Case {
         strip_flags: bool,
         /// run the migration at this block time instead of the world's (nanoseconds)
         clock: Option<u64>,
+        /// what governance did through sudo before the migration (see w_migrate::setup_gov)
+        #[serde(default)]
+        gov: u8,
     },
     /// a factory instantiated with `init`, stored cw2 (name, version), migrated with an
     /// optional parameter message; the Params answer is compared field by field
@@ -178,7 +181,7 @@ fn coq_state(name: &str, version: &str, raw: &Raw, ids: &mut Ids) -> String {
     let lm = a(slot_addr(raw, "minter"), ids);
     let ow = a(slot_owner(raw), ids);
     format!(
-        "(mkState {} {} (mkSlots {} {} {} {} {} {}))",
+        "(mkState {} {} (mkSlots {} {} {} {} {} {} {}))",
         coq_str(name),
         coq_str(version),
         t("last_discount_time"),
@@ -186,7 +189,11 @@ fn coq_state(name: &str, version: &str, raw: &Raw, ids: &mut Ids) -> String {
         coq_opt_bool(slot_bool(raw, "enable_updatable")),
         t("royalty_updated_at"),
         lm,
-        ow
+        ow,
+        match slot_status(raw) {
+            Some((a, b, c)) => format!("(Some ({}, {}, {}))", coq_bool(a), coq_bool(b), coq_bool(c)),
+            None => "None".to_string(),
+        }
     )
 }
 
@@ -275,6 +282,7 @@ fn run_mig(w: &mut World, case: &Case, code_version: &str) -> Outcome {
         let older = |t: (u64, u64, u64)| stored.map_or(false, |s| s < t);
         for k in &changed_keys {
             let allowed = match k.as_str() {
+                "status" => false, // what governance set is never a migration's to change
                 "contract_info" => c.kind() != Kind::Factory,
                 "last_discount_time" => c.kind() == Kind::Vending && older((3, 9, 0)),
                 "frozen_token_metadata" | "enable_updatable" => from_base,
@@ -924,15 +932,88 @@ const NAMES: [&str; 26] = [
     "crates.io:cw4-group", "", "sg-minter", "crates.io:sg-minter ", "CRATES.IO:SG-MINTER", "crates.io:sg-minterx", "crates.io:sg721-updatabl",
 ];
 
+
+/// every MAJOR.MINOR.PATCH literal in the sources that hold a migrate function
+/// (`Version::new(a, b, c)` and "a.b.c" strings; test modules excluded), with the
+/// versions just below and above each of them
+fn harvested_versions() -> Vec<String> {
+    let repo = std::env::var("VERIF_REPO").unwrap_or_else(|_| "/repo".to_string());
+    let mut files: Vec<String> = vec![];
+    for d in [
+        "minters/vending-minter", "minters/vending-minter-featured", "minters/vending-minter-wl-flex", "minters/vending-minter-wl-flex-featured",
+        "minters/vending-minter-merkle-wl", "minters/vending-minter-merkle-wl-featured", "minters/open-edition-minter",
+        "minters/open-edition-minter-wl-flex", "minters/open-edition-minter-merkle-wl", "minters/token-merge-minter",
+        "factories/base-factory", "factories/vending-factory", "factories/open-edition-factory", "factories/token-merge-factory",
+        "splits", "whitelists/whitelist-merkletree", "whitelists/tiered-whitelist-merkletree",
+        "collections/sg721-updatable", "collections/sg721-base",
+    ] {
+        files.push(format!("{}/contracts/{}/src/contract.rs", repo, d));
+    }
+    for f in ["mod.rs", "v3_0_0.rs", "v3_1_0.rs"] {
+        files.push(format!("{}/contracts/collections/sg721-base/src/upgrades/{}", repo, f));
+    }
+    let mut triples: BTreeSet<(u64, u64, u64)> = BTreeSet::new();
+    for f in files {
+        let Ok(src) = std::fs::read_to_string(&f) else { continue };
+        let src = match src.find("#[cfg(test)]") {
+            Some(i) => src[..i].to_string(),
+            None => src,
+        };
+        // Version::new(a, b, c)
+        let mut rest = &src[..];
+        while let Some(i) = rest.find("Version::new(") {
+            rest = &rest[i + "Version::new(".len()..];
+            let end = rest.find(')').unwrap_or(0);
+            let parts: Vec<Option<u64>> = rest[..end].split(',').map(|x| x.trim().parse().ok()).collect();
+            if let [Some(a), Some(b), Some(c)] = parts[..] {
+                triples.insert((a, b, c));
+            }
+        }
+        // "a.b.c"
+        for piece in src.split('"').skip(1).step_by(2) {
+            if let Some(t) = plain_triple(piece) {
+                triples.insert(t);
+            }
+        }
+    }
+    let mut out = BTreeSet::new();
+    for (a, b, c) in triples {
+        let mut add = |x: u64, y: u64, z: u64| {
+            out.insert(format!("{}.{}.{}", x, y, z));
+        };
+        add(a, b, c);
+        add(a, b, c + 1);
+        add(a, b + 1, 0);
+        if c > 0 {
+            add(a, b, c - 1);
+        }
+        if b > 0 {
+            add(a, b - 1, 99);
+            add(a, b - 1, c);
+        }
+        if a > 0 {
+            add(a - 1, 99, 99);
+            add(a - 1, b, c);
+        }
+    }
+    out.into_iter().collect()
+}
+
 fn mig(contract: Contract, stage: u8, name: &str, version: &str) -> Case {
-    Case::Mig { contract, stage, name: name.to_string(), version: version.to_string(), msg: MsgKind::Nothing, legacy_minter: false, strip_flags: false, clock: None }
+    Case::Mig { contract, stage, name: name.to_string(), version: version.to_string(), msg: MsgKind::Nothing, legacy_minter: false, strip_flags: false, clock: None, gov: 0 }
 }
 
 fn gen_cases(a: &Args, code: &str) -> Vec<Case> {
     let mut rng = Rng::new(a.seed);
     let mut cases = vec![];
     let grid = grid_versions();
-    let bounds = boundary_versions(code);
+    let mut bounds = boundary_versions(code);
+    let harvested = harvested_versions();
+    for h in harvested.iter().cloned() {
+        if !bounds.contains(&h) {
+            bounds.push(h);
+        }
+    }
     // ---- the semver crate itself: parse and order
     for s in grid.iter().chain(bounds.iter()) {
         cases.push(Case::Parse { s: s.clone() });
@@ -989,7 +1070,43 @@ fn gen_cases(a: &Args, code: &str) -> Vec<Case> {
                         continue;
                     }
                     for (name, ver) in [(own, "3.15.0"), (own, code), (own, "0.1.0"), (own, "3.17.0"), (own, "x"), ("crates.io:sg-minter", "3.15.0")] {
-                        cases.push(Case::Mig { contract: c, stage, name: name.to_string(), version: ver.to_string(), msg: k, legacy_minter: false, strip_flags: false, clock: None });
+                        cases.push(Case::Mig { contract: c, stage, name: name.to_string(), version: ver.to_string(), msg: k, legacy_minter: false, strip_flags: false, clock: None, gov: 0 });
+                    }
+                }
+            }
+            // governance has acted before the migration: every status flag triple on every
+            // minter, a frozen factory with moved parameters; nothing of it may be undone
+            if si == 0 && (is_minter(c) || c.kind() == Kind::Factory) {
+                let govs: Vec<u8> = if is_minter(c) { (1..=8).collect() } else { vec![1] };
+                for gov in govs {
+                    for gstage in [1u8, 0, 2] {
+                        if gstage != 1 && !(c.kind() == Kind::Factory || gov == 2 || gov == 7) {
+                            continue;
+                        }
+                        let mut push = |name: &str, ver: &str, msg: MsgKind| {
+                            cases.push(Case::Mig { contract: c, stage: gstage, name: name.to_string(), version: ver.to_string(), msg, legacy_minter: false, strip_flags: false, clock: None, gov });
+                        };
+                        // every version literal of the migrate sources (+-1) for every triple; the
+                        // whole boundary list and a grid sample for "blocked" and "all flags"
+                        let wide = c.kind() == Kind::Factory || gov == 2 || gov == 7;
+                        for ver in &bounds {
+                            if wide || harvested.contains(ver) {
+                                push(own, ver, MsgKind::Nothing);
+                            }
+                        }
+                        for (i, ver) in grid.iter().enumerate() {
+                            if wide && (i + gov as usize) % 10 == 0 {
+                                push(own, ver, MsgKind::Nothing);
+                            }
+                        }
+                        for (name, ver) in [("crates.io:sg-base-minter", "2.4.0"), (own, "3.16"), (own, "99.0.0")] {
+                            push(name, ver, MsgKind::Nothing);
+                        }
+                        if c.kind() == Kind::Factory {
+                            for ver in ["2.4.0", "3.15.0", code] {
+                                push(own, ver, MsgKind::Valid);
+                            }
+                        }
                     }
                 }
             }
@@ -998,7 +1115,7 @@ fn gen_cases(a: &Args, code: &str) -> Vec<Case> {
                 let h = 3600 * 1_000_000_000u64;
                 for t in [12 * h - 1, 12 * h, 12 * h + 1, 24 * h - 1, 24 * h, 24 * h + 1, 0] {
                     for ver in ["3.8.9", "3.9.0", "3.0.10", "3.1.0", "3.15.0"] {
-                        cases.push(Case::Mig { contract: c, stage, name: own.to_string(), version: ver.to_string(), msg: MsgKind::Nothing, legacy_minter: false, strip_flags: false, clock: Some(t) });
+                        cases.push(Case::Mig { contract: c, stage, name: own.to_string(), version: ver.to_string(), msg: MsgKind::Nothing, legacy_minter: false, strip_flags: false, clock: Some(t), gov: 0 });
                     }
                 }
             }
@@ -1008,10 +1125,10 @@ fn gen_cases(a: &Args, code: &str) -> Vec<Case> {
                     for (i, ver) in grid.iter().chain(bounds.iter()).enumerate() {
                         if si == 0 || i % 7 == si {
                             for strip in [false, true] {
-                                cases.push(Case::Mig { contract: c, stage, name: name.to_string(), version: ver.clone(), msg: MsgKind::Nothing, legacy_minter: true, strip_flags: strip, clock: None });
+                                cases.push(Case::Mig { contract: c, stage, name: name.to_string(), version: ver.clone(), msg: MsgKind::Nothing, legacy_minter: true, strip_flags: strip, clock: None, gov: 0 });
                             }
                             if i % 5 == 0 {
-                                cases.push(Case::Mig { contract: c, stage, name: name.to_string(), version: ver.clone(), msg: MsgKind::Nothing, legacy_minter: false, strip_flags: true, clock: None });
+                                cases.push(Case::Mig { contract: c, stage, name: name.to_string(), version: ver.clone(), msg: MsgKind::Nothing, legacy_minter: false, strip_flags: true, clock: None, gov: 0 });
                             }
                         }
                     }
@@ -1042,7 +1159,8 @@ fn gen_cases(a: &Args, code: &str) -> Vec<Case> {
             MsgKind::Nothing
         };
         let upd = c == Contract::Sg721Updatable;
-        cases.push(Case::Mig { contract: c, stage, name, version, msg, legacy_minter: upd && rng.chance(1, 2), strip_flags: upd && rng.chance(1, 3), clock: None });
+        let gov = if is_minter(c) { rng.below(9) as u8 } else if c.kind() == Kind::Factory { rng.below(2) as u8 } else { 0 };
+        cases.push(Case::Mig { contract: c, stage, name, version, msg, legacy_minter: upd && rng.chance(1, 2), strip_flags: upd && rng.chance(1, 3), clock: None, gov });
     }
     cases
 }
@@ -1083,22 +1201,25 @@ pub fn run(a: &Args) {
     } else {
         gen_cases(a, &code)
     };
-    let mut worlds: BTreeMap<(Contract, u8), World> = BTreeMap::new();
+    let mut worlds: BTreeMap<(Contract, u8, u8), World> = BTreeMap::new();
     let mut coq_cases = Vec::with_capacity(cases.len());
     let mut distinct = BTreeSet::new();
     let mut nviol = 0;
     let mut seen_keys = BTreeSet::new();
     for (i, case) in cases.iter().enumerate() {
         let o = match case {
-            Case::Mig { contract, stage, .. } => {
-                let w = worlds.entry((*contract, *stage)).or_insert_with(|| {
-                    let setup = setup(*contract, *stage).unwrap_or_else(|e| panic!("cannot set up {:?} stage {}: {}", contract, stage, e));
+            Case::Mig { contract, stage, gov, .. } => {
+                let w = worlds.entry((*contract, *stage, *gov)).or_insert_with(|| {
+                    let setup = setup_gov(*contract, *stage, *gov).unwrap_or_else(|e| panic!("cannot set up {:?} stage {} gov {}: {}", contract, stage, gov, e));
                     let raw0 = raw_storage(&setup.app, &setup.addr);
                     let time0 = setup.app.block_info();
                     World { raw0, time0, qs: queries(*contract), ids: Ids::with_fixed(&[], 10), setup }
                 });
                 let o = run_mig(w, case, &code);
                 rep.bump(&format!("{:?}:migrate:{}", contract, if o.ok { "ok" } else { "err" }));
+                if *gov != 0 {
+                    rep.bump(&format!("{:?}:after-governance-sudo", contract));
+                }
                 o
             }
             Case::MigP { kind, .. } => {
